@@ -1,6 +1,8 @@
 (* C06 — editing functions produce exactly the document the edit denotes. *)
 (* NOTE on the `*_m` statements in this file: `*_m` (Dispatch.v) is the view-level composition "decode, apply the tree
-   function, encode"; it is a specification device and is no longer what the correspondence check runs against the crate.
+   function, encode"; for JSONB input it is a specification device and is no longer what the correspondence check runs against
+   the crate.  `*_m` is still the text branch of every `*_w` (`f_w bs = if is_jsonb bs then f_b bs else f_m bs`: on JSON text the
+   Rust parses and works on the tree, and so does the model), so through `*_w` the correspondence does run `*_m` on text arguments.
    The statements tied to the Rust code are the ones about the offset-faithful walkers `*_w` below, which relate `*_w` on
    encodings directly to the same tree functions `*_t`. *)
 From Coq Require Import List NArith ZArith Bool.
